@@ -80,81 +80,34 @@ Proof.
   - vm_compute. reflexivity.
 Qed.
 
-(* (R2) WhenQuery with a context: the call panics, for every state of the
-   manager in which the context is still alive; and the half-registered
-   binding makes a later processSubscriptions panic once the predicate holds *)
-Lemma whenquery_ctx_refuted_lemma :
-  (forall (s : sst) (v : view) (f : qfn) (c : nat),
-      ss_disposed s = false -> mem c (ss_done s) = false ->
-      snd (do_op s v (OWhenQuery f (Some c))) = RPanic) /\
-  (exists es : list sevent, ss_crashed (run init_sst es) = true).
-Proof.
-  split.
-  - intros s v f c Hd Hc. unfold do_op. rewrite Hd. cbn [ctx_done]. rewrite Hc. reflexivity.
-  - exists [EOp 0 (init_view 1 []) (OWhenQuery QAlways (Some 1)); EProcess [] [] [0%N] [0%N] 1%N].
-    vm_compute. reflexivity.
-Qed.
+(* ---- defects that have been repaired in /repo: the same histories, now
+   served (regression witnesses; the corpus replays them on the implementation) *)
 
-(* (R3) after SetSchema the manager holds a copy of the clock: WhenTicks(A, 1)
-   registered afterwards stays open although A's tick moved by 2 *)
 Definition w3_ops := [at_call 1 OSetSchema; at_call 1 (OWhenTicks 0 1 None)].
-
-Lemma whentime_setschema_refuted_lemma :
-  exists (sc : schema) (calls : list api_call) (ops : list sched_op),
-    let es := hist_events sc [] [] calls ops in
-    nth 1 ops (at_call 0 ONop) = at_call 1 (OWhenTicks 0 1 None) /\
-    (* the tick the subscription waits for is reached at a processed transition end *)
-    existsb (fun vp : view * bool => snd vp && (2 <=? tick_of (v_clock (fst vp)) 0)%N)
-            (tx_end_views es) = true /\
-    existsb (fun e => match e with
-                      | EOp _ v (OWhenTicks 0 1 None) => N.eqb (tick_of (v_clock v) 0) 1
-                      | _ => false end) es = true /\
-    last (polls_of ops es) [] = [false; false].
-Proof.
-  exists (flat_schema 1), [call KAdd [0]; call KRemove [0]; call KAdd [0]], w3_ops.
-  cbv zeta. split; [reflexivity|].
-  remember (hist_events _ _ _ _ _) as es eqn:Hes. vm_compute in Hes. subst es.
-  split; [|split]; vm_compute; reflexivity.
-Qed.
-
-(* (R4) WhenQueue(tick) of a canceled mutation: the queue passes the tick at
-   the end of the canceled transition, the channel stays open *)
 Definition req_schema : schema :=
   [{| s_auto := false; s_multi := false; s_require := [1]; s_add := []; s_remove := []; s_after := [] |};
    plain_sdef; exc_sdef].
-
-Lemma whenqueue_canceled_refuted_lemma :
-  exists (sc : schema) (calls : list api_call) (t : N),
-    let ops := [at_call 0 (OWhenQueue t)] in
-    let es := hist_events sc [] [] calls ops in
-    existsb (fun vp : view * bool => negb (snd vp) && cond (OWhenQueue t) (fst vp))
-            (tx_end_views es) = true /\
-    polls_of ops es = [[false]; [false]].
-Proof.
-  exists req_schema, [call KAdd [0]], 2%N.
-  cbv zeta.
-  remember (hist_events _ _ _ _ _) as es eqn:Hes. vm_compute in Hes. subst es.
-  split; vm_compute; reflexivity.
-Qed.
-
-(* (R5) a multi-state When with a context is listed once per state under the
-   context; when the context ends it is collected twice and the second gc
-   drops the index entry of an unrelated When [A], which is then never served *)
 Definition w5_ops :=
   [at_call 0 (OWhen [0; 1] (Some 1)); at_call 0 (OWhen [0] None); at_call 0 (OCancel 1)].
 
-Lemma when1_lost_refuted_lemma :
-  exists (sc : schema) (calls : list api_call) (ops : list sched_op),
-    let es := hist_events sc [] [] calls ops in
-    nth 1 ops (at_call 0 ONop) = at_call 0 (OWhen [0] None) /\
-    existsb (fun vp : view * bool => snd vp && cond (OWhen [0] None) (fst vp))
-            (tx_end_views es) = true /\
-    nth 1 (last (polls_of ops es) []) true = false.
+Lemma repaired_examples_lemma :
+  (* WhenTicks registered after SetSchema is served (the manager reads the live clock) *)
+  last (polls_of w3_ops (hist_events (flat_schema 1) [] []
+          [call KAdd [0]; call KRemove [0]; call KAdd [0]] w3_ops)) [] = [false; true] /\
+  (* WhenQueue(tick) of a canceled mutation is closed by that transition *)
+  polls_of [at_call 0 (OWhenQueue 2)]
+           (hist_events req_schema [] [] [call KAdd [0]] [at_call 0 (OWhenQueue 2)]) = [[true]; [true]] /\
+  (* the ended context of a multi-state When no longer orphans the When [0] binding *)
+  nth 1 (last (polls_of w5_ops (hist_events (flat_schema 3) [] []
+                 [call KAdd [2]; call KAdd [0]] w5_ops)) []) false = true /\
+  (* WhenQuery with a context returns a channel *)
+  (forall (s : sst) (v : view) (f : qfn) (c : nat),
+      ss_disposed s = false -> mem c (ss_done s) = false ->
+      snd (do_op s v (OWhenQuery f (Some c))) = RChan (ss_next s)).
 Proof.
-  exists (flat_schema 3), [call KAdd [2]; call KAdd [0]], w5_ops.
-  cbv zeta. split; [reflexivity|].
-  remember (hist_events _ _ _ _ _) as es eqn:Hes. vm_compute in Hes. subst es.
-  split; vm_compute; reflexivity.
+  split; [vm_compute; reflexivity|]. split; [vm_compute; reflexivity|].
+  split; [vm_compute; reflexivity|].
+  intros s v f c Hd Hc. unfold do_op. rewrite Hd. cbn [ctx_done]. rewrite Hc. reflexivity.
 Qed.
 
 (* (R6) a state context made between setActiveStates and ProcessStateCtx of
@@ -186,9 +139,11 @@ From AMV Require Proofs.C06When Proofs.C06Keep.
 Definition when_iff_lemma := C06When.when_iff_lemma.
 Definition when_single_state_iff_lemma := C06When.when_single_state_iff_lemma.
 Definition when_no_lost_wakeup_lemma := C06When.when_no_lost_wakeup_lemma.
-Definition whenqueue_partial_lemma := C06Keep.whenqueue_no_lost_lemma.
-Definition whenqueueends_lemma := C06Keep.whenqueueends_lemma.
-Definition statectx_partial_lemma := C06Keep.statectx_no_lost_lemma.
+Definition whenqueue_no_lost_lemma := C06Keep.whenqueue_no_lost_lemma'.
+Definition whenqueueends_lemma := C06Keep.whenqueueends_lemma'.
+Definition statectx_partial_lemma := C06Keep.statectx_no_lost_lemma'.
+Definition whenquery_no_lost_lemma := C06Keep.whenquery_no_lost_lemma.
+Definition never_crashed_lemma := C06Keep.run_not_crashed.
 
 Lemma when_spurious_partial_lemma : forall a0 pre k v neg sts ctx post,
   let es := pre ++ EOp k v (when_op neg sts ctx) :: post in
@@ -267,5 +222,9 @@ Lemma queue_ctx_nonvacuous_lemma :
   (let post := [EStateCtx [1] [0]] in
    let es := ex_pre ++ EOp 0 v (ONewStateCtx 0) :: post in
    ss_crashed (run init_sst es) = false /\ known v [0] = true /\ ctx_touched 0 post = true /\
-   closed_of (run init_sst (ex_pre ++ [EOp 0 v (ONewStateCtx 0)])) 0 = false).
+   closed_of (run init_sst (ex_pre ++ [EOp 0 v (ONewStateCtx 0)])) 0 = false) /\
+  (* a canceled transition with queue tick 3, then a WhenQuery with a context *)
+  (processed_with (fun qt => (3 <=? qt)%N) [EQueueTick 3] = true /\
+   query_held (QActive 1) ex_post = true /\
+   closed_of (run init_sst (ex_pre ++ [EOp 0 v (OWhenQuery (QActive 1) (Some 1))])) 0 = false).
 Proof. cbv zeta. repeat split; vm_compute; reflexivity. Qed.
